@@ -308,6 +308,19 @@ static int _pipecmd (char *path, char *args[], int *fd2p, pid_t *ppid)
          */
         closeall (3);
 
+        /*
+         *  The threads of pdsh block SIGINT, SIGTSTP and SIGCHLD (they are
+         *   handled synchronously by one thread), and this child inherited
+         *   the mask of the thread that forked it. The command must not:
+         *   it could never receive a forwarded interrupt, and a shell
+         *   waiting for its own children would wait forever.
+         */
+        {
+            sigset_t none;
+            sigemptyset (&none);
+            sigprocmask (SIG_SETMASK, &none, NULL);
+        }
+
         setsid ();
         execvp (path, args);
         err ("%p: execvp %s failed: %m\n", path);
